@@ -75,7 +75,7 @@ def kind_of(node, parent, field, ancestors):
         if isinstance(parent, ast.Dict):
             return 'dictval' if field == 'values' else None
         if field in EXPR_SLOT_SKIP_FIELDS:
-            return 'expr1' if field in ('func', 'annotation', 'returns', 'context_expr', 'key', 'bound') else None
+            return 'expr1' if field in ('func', 'annotation', 'returns', 'context_expr', 'key', 'bound', 'decorator_list', 'bases') else None
         if isinstance(parent, (ast.Attribute, ast.Subscript)):
             return 'expr1'
         if isinstance(parent, (ast.keyword, ast.withitem)):
